@@ -445,7 +445,8 @@ H_RecvRet(s, r, l) ==
   ELSE IF j = 0 THEN R(s, Fail("C10_NotBefore", l, "") + (IF \E n \in DOMAIN y.inq : y.inq[n].m = r.res.m /\ y.inq[n].contra THEN Fail("C10_Contradiction", l, "") ELSE 0)
                                 + (IF \E n \in DOMAIN y.inq : y.inq[n].m = r.res.m /\ y.inq[n].aborted THEN Fail("C10_Abort", l, "") ELSE 0))
   ELSE LET e == y.inq[j] IN
-       R(SetL(s, k, [y EXCEPT !.inq = SubSeq(@, j + 1, Len(@)), !.held = IF y.autoAcc THEN @ ELSE @ + 1, !.dcGot = @ + 1, !.accepted = @ + 1,
+       \* (a recv that hands over a delivery that had arrived before the peer's detach has not yet shown the detach to the application)
+       R(SetL(s, k, [y EXCEPT !.inq = SubSeq(@, j + 1, Len(@)), !.held = IF y.autoAcc THEN @ ELSE @ + 1, !.dcGot = @ + 1, !.accepted = @ + 1, !.touched = FALSE,
                          !.got = Append(@, [did |-> e.did, m |-> e.m, app |-> "none", presettled |-> e.presettled])]),
            Chk("C10_Exact", r.res.m = e.m /\ r.res.intact /\ e.next = e.total, l, "")
          + Chk("C11_Routing", r.res.m = e.m \/ ~\E k2 \in DOMAIN s.ls : k2 # k /\ \E n \in DOMAIN s.ls[k2].inq : s.ls[k2].inq[n].m = r.res.m, l, "")
@@ -482,7 +483,11 @@ H_ApiRet(s, r, l) ==
        LET y == s.ls[k] IN
        R(SetL(s, k, [y EXCEPT !.errTold = TRUE]),
            Chk("C13_TeardownWaits", ~r.res.ok \/ y.pDet \/ ~ConnUp(s), l, r.op)
-         + Chk("C13_PeerError", ~(y.pDet /\ y.pDetErr # "" /\ ~y.errTold) \/ (~r.res.ok /\ r.res.cond = y.pDetErr) \/ (s.appTeardown /\ ~r.res.ok /\ r.res.says_sess), l, r.op))
+         + Chk("C13_PeerError", ~(y.pDet /\ y.pDetErr # "" /\ ~y.errTold) \/ (~r.res.ok /\ r.res.cond = y.pDetErr) \/ (s.appTeardown /\ ~r.res.ok /\ r.res.says_sess), l, r.op)
+         \* an orderly exchange (the peer answered in kind, without an error, on a live session) is reported as success, whatever was still queued on the link
+         \* (and an error is not reported before the peer has answered while nothing else has failed)
+         + Chk("C13_DetachResult", r.res.ok \/ ~(ConnUp(s) /\ (y.pDet => (~y.pDetFirst /\ y.pDetErr = "" /\ (r.op = "close_link") = y.pClosed)) /\ y.eDet /\ ~y.broken /\ y.cancels = 0 /\ ~s.hook /\ ~s.illegal
+                                              /\ SessByE(s, y.ech) > 0 /\ ~s.ss[SessByE(s, y.ech)].pEnded /\ ~s.ss[SessByE(s, y.ech)].eEnded), l, r.res.class))
   ELSE IF r.op = "end" THEN
        LET i == LastIdx(s.ss, LAMBDA x : x.eBegun /\ x.name = SessName(r.scope)) IN
        IF i = 0 THEN R(s, 0) ELSE
